@@ -19,14 +19,21 @@ CONTRACTS = {
     "StingyConfigurator.__init__": {"props": ["C14", "C16", "C18"], "why": "a configurator is All(*rules) with the given id"},
     "StingyConfigurator.ge_polyhedron": {"props": ["C09", "C14", "C15"],
                                          "why": "asserted polyhedron (active=True), default prio vector over its A-columns, same variables/index; not memoised"},
-    "StingyConfigurator.default_prios": {"props": ["C14", "C15"], "why": "id -> prio tag, -1 where untagged"},
+    "StingyConfigurator.default_prios": {"props": ["C14", "C15"],
+                                         "why": "id -> lowest prio tag over EVERY occurrence of that id (-1 where untagged): a tag belongs to the "
+                                                "id, identical sub-propositions share an id and flatten() keeps only one object per id"},
+    "_occurrences": {"props": ["C14", "C15"], "optional": True, "why": "a node and all its descendants, one entry per occurrence (no de-duplication)"},
     "StingyConfigurator.leafs": {"props": ["C09", "C15"], "why": "exact-type puan.variable members of flatten(); not memoised"},
-    "StingyConfigurator.select": {"props": ["C15"], "why": "delegates to the polyhedron; only_leafs keeps ids of leafs()"},
+    "StingyConfigurator.select": {"props": ["C14", "C15"], "why": "delegates to the polyhedron; only_leafs keeps ids of leafs()"},
     "StingyConfigurator.add": {"props": ["C18"],
                                "why": "raise if the id names an existing child, else StingyConfigurator(*(children + [p]), id=self.id)"},
     "StingyConfigurator.from_json": {"props": ["C16"], "why": "children through plog.from_json with the configurator class list; id kept"},
     "StingyConfigurator.to_json": {"props": ["C16"], "why": "same format as All"},
 }
+
+
+def _occurrences(proposition):
+    return itertools.chain([proposition], *[_occurrences(p) for p in getattr(proposition, "propositions", [])])
 
 
 class Any(pg.Any):
@@ -108,7 +115,9 @@ class StingyConfigurator(pg.All):
 
     @property
     def default_prios(self):
-        return dict((p.id, getattr(p, "prio", -1)) for p in self.flatten())
+        return dict((i, min(getattr(p, "prio", -1) for p in nodes))
+                    for i, nodes in itertools.groupby(sorted(_occurrences(self), key=operator.attrgetter("id")),
+                                                      key=operator.attrgetter("id")))
 
     def leafs(self):
         return sorted(set(itertools.chain(x for x in self.flatten() if type(x) == puan.variable)))
